@@ -278,7 +278,7 @@ def Iter.nextFire (ttl : Int) (it : Iter) : Int :=
 def Iter.wf (delay : Int) (it : Iter) : Prop :=
   it.fire ≤ it.stamp ∧ it.stamp ≤ it.pub ∧ it.pub ≤ it.reset ∧ it.reset ≤ it.fire + delay
 
-/-- `b` is the iteration that follows `a` -/
-def Iter.follows (ttl : Int) (a b : Iter) : Prop := b.fire = a.nextFire ttl
+/-- `b.follows ttl a`: `b` is the iteration that follows `a` -/
+def Iter.follows (b : Iter) (ttl : Int) (a : Iter) : Prop := b.fire = a.nextFire ttl
 
 end CV.C09
